@@ -188,10 +188,37 @@ def hManageDeployment (inp out : Json) : Except String Findings := do
                   | _ => false))
       return fs
 
+/-! ### selectCurrentReplicaSet -/
+def hSelectCurrent (inp out : Json) : Except String Findings := do
+  let d : EDS ← get inp "eds"
+  let u : ERS ← get inp "upToDate"
+  let a : Option ERS := (inp.getObjValAs? ERS "active").toOption
+  let same : Bool ← get inp "samePtr"
+  let now : Time ← get inp "now"
+  let pick : String ← get out "pick"
+  let rq : Dur ← get out "requeueAfter"
+  let m := selectCurrent d.strategy.canary d.annotations a u same now
+  let mp := match m.1 with | .active => (if a.isSome then "active" else "nil") | .upToDate => "upToDate"
+  let fs : Findings := #[]
+  let fs := diff fs "pick" pick mp
+  let fs := diff fs "requeueAfter" rq m.2
+  -- the promotion rule of the statement, on the implementation's answer; only for specs that the
+  -- reconcile would accept (validated) and for distinct objects
+  let validated := validateSpec d.strategy == .ok
+  let fs := if validated && !same && pick != "panic" then
+      spec fs "C05.promotion-rule" (Spec.C05.holds d.strategy.canary d.annotations a.isSome u now (pick == "upToDate"))
+    else fs
+  let fs := if validated && !same && a.isSome then
+      spec fs "C08.paused-not-promoted" (!((isCanaryPaused d.annotations (some u)).1 && !isCanaryValid d.annotations u.name
+                                            && d.strategy.canary.isSome) || pick == "active")
+    else fs
+  return fs
+
 def handlers : List (String × (Json → Json → Except String Findings)) := [
   ("limits", hLimits),
   ("max_creation", hMaxCreation),
-  ("manage_deployment", hManageDeployment)
+  ("manage_deployment", hManageDeployment),
+  ("select_current", hSelectCurrent)
 ]
 
 def handleLine (line : String) : String :=
